@@ -1400,6 +1400,13 @@ class Vmap(Generic[X, R], GFI[X, R]):
     axis_name: Const[str | None]
     spmd_axis_name: Const[str | None]
 
+    def _callee_in_axes(self, n_args: int) -> tuple:
+        """`in_axes` of the callee's arguments as a tuple (int and None broadcast)."""
+        in_axes = self.in_axes.value
+        if in_axes is None or isinstance(in_axes, int):
+            return (in_axes,) * n_args
+        return tuple(in_axes)
+
     def simulate(
         self,
         *args,
@@ -1419,10 +1426,7 @@ class Vmap(Generic[X, R], GFI[X, R]):
         *args,
         **kwargs,
     ) -> tuple[Trace[X, R], Weight]:
-        if self.in_axes.value is None:
-            in_axes = (0,) + (None,) * len(args)
-        else:
-            in_axes = (0,) + self.in_axes.value
+        in_axes = (0,) + self._callee_in_axes(len(args))
         tr, w = modular_vmap(
             self.gen_fn.generate,
             in_axes=in_axes,
@@ -1438,10 +1442,7 @@ class Vmap(Generic[X, R], GFI[X, R]):
         *args,
         **kwargs,
     ) -> tuple[Density, R]:
-        if self.in_axes.value is None:
-            in_axes = (0,) + (None,) * len(args)
-        else:
-            in_axes = (0,) + self.in_axes.value
+        in_axes = (0,) + self._callee_in_axes(len(args))
         density, retval = modular_vmap(
             self.gen_fn.assess,
             in_axes=in_axes,
@@ -1458,10 +1459,7 @@ class Vmap(Generic[X, R], GFI[X, R]):
         *args,
         **kwargs,
     ) -> tuple[Trace[X, R], Weight, X | None]:
-        if self.in_axes.value is None:
-            in_axes = (0, 0) + (None,) * len(args)
-        else:
-            in_axes = (0, 0) + self.in_axes.value
+        in_axes = (0, 0) + self._callee_in_axes(len(args))
         new_tr, w, discard = modular_vmap(
             self.gen_fn.update,
             in_axes=in_axes,
@@ -1478,10 +1476,7 @@ class Vmap(Generic[X, R], GFI[X, R]):
         *args,
         **kwargs,
     ) -> tuple[Trace[X, R], Weight, X | None]:
-        if self.in_axes.value is None:
-            in_axes = (0, None) + (None,) * len(args)
-        else:
-            in_axes = (0, None) + self.in_axes.value
+        in_axes = (0, None) + self._callee_in_axes(len(args))
         new_tr, w, discard = modular_vmap(
             self.gen_fn.regenerate,
             in_axes=in_axes,
